@@ -9,9 +9,9 @@ FUNCTIONS = [
     "batchie.data.ExperimentSpace.n_unique_treatments / n_unique_samples / from_screen",
 ]
 BOUNDS = {
-    "quick": "treatment encoder: <=3 (name,dose) rows + <=1 extra mapping row; 1-d encoder: <=3 names + <=1 extra; "
+    "quick": "treatment encoder: <=3 (name,dose) rows + <=1 extra mapping row; 1-d encoder: <=3 names + <=1 extra; ; names solver-chosen from a pool of unequal lengths with shared prefixes; 300 distinct concrete names with one symbolic dose; bad mappings alone and next to a valid one"
              "Screen: 2 rows x arity<=2 (and 1 row x arity 3); names/control name arbitrary strings up to order-isomorphism, doses arbitrary reals",
-    "thorough": "treatment encoder: <=4 rows, and 3+1 / 2+2 with superset mapping; 1-d encoder: <=5, 3+2; Screen: up to 4 (name,dose) cells fully symbolic (2x2 one plate), up to 4 cells with concrete doses for arity 3-4 and superset mappings",
+    "thorough": "treatment encoder: <=4 rows, and 3+1 / 2+2 with superset mapping; 1-d encoder: <=5, 3+2; Screen: up to 4 (name,dose) cells fully symbolic (2x2 one plate), up to 4 cells with concrete doses for arity 3-4 and superset mappings; pool-name configurations with more rows; 1000 distinct names",
 }
 ASSUMPTIONS = [
     "names are only compared, sorted, hashed and copied (model raises ModelGap on any other string operation), so a name is an atom of a totally ordered sort",
@@ -38,9 +38,12 @@ def configs(tier, seed):
         out.append(dict(name="screen r=1 a=1 +1", h="screen", rows=1, arity=1, extra=1))
         out.append(dict(name="screen r=1 a=2 +1 fixed-doses", h="screen", rows=1, arity=2, extra=1, doses="fixed", plates="one"))
         out.append(dict(name="badmap n=2", h="badmap", n=2))
+        out.append(dict(name="300 distinct names", h="many", N=300))
         out.append(dict(name="treat n=1 m=2 names of unequal length", h="treat", n=1, m=2, pool=True))
         out.append(dict(name="one_d n=2 m=2 names of unequal length", h="one_d", n=2, m=2, pool=True))
     else:
+        out.append(dict(name="300 distinct names", h="many", N=300))
+        out.append(dict(name="1000 distinct names", h="many", N=1000))
         out.append(dict(name="treat n=2 m=2 names of unequal length", h="treat", n=2, m=2, pool=True))
         out.append(dict(name="one_d n=2 m=3 names of unequal length", h="one_d", n=2, m=3, pool=True))
         out.append(dict(name="one_d n=3 m=2 names of unequal length", h="one_d", n=3, m=2, pool=True))
@@ -257,6 +260,36 @@ def h_screen(ctx, cfg):
     return len(mn)
 
 
+def h_many(ctx, cfg):
+    """three hundred distinct names (ids beyond every narrow integer range), each used once or twice, in a scrambled order:
+    ids are dense 0..n-1, equal names get equal ids, the mappings decode every id; one dose symbolic"""
+    np = ctx.np
+    data = ctx.mod("batchie.data")
+    N = cfg["N"]
+    base = ["n%03d" % ((i * 7919) % N) for i in range(N)] + ["n%03d" % ((i * 31) % N) for i in range(0, N, 5)]
+    ids, mn, mi = data.encode_1d_array_to_0_indexed_ids(np.array(base, dtype=str))
+    ids, mn, mi = [int(x) for x in ids.tolist()], mn.tolist(), [int(x) for x in mi.tolist()]
+    ctx.prove(sorted(set(ids)) == list(range(N)), "1-d ids are dense 0..n-1 (300 distinct names)", key="ids not dense for many names")
+    dec = dict(zip(mi, mn))
+    ctx.prove(len(dec) == N and sorted(mi) == list(range(N)) and all(dec[i] == nm for i, nm in zip(ids, base)),
+              "every id decodes through the mapping to the row's name (300 distinct names)", key="ids do not decode for many names")
+    d0 = ctx.real("ds0", positive=True)
+    doses = [1.0] * len(base)
+    doses[0] = d0
+    tid, tmn, tmd, tmi = data.encode_treatment_arrays_to_0_indexed_ids(np.array(base, dtype=str), np.array(doses, dtype=float), control_treatment_name="ctrl")
+    tid = [int(r) for r in tid.tolist()]
+    tmn, tmd, tmi = tmn.tolist(), tmd.tolist(), [int(x) for x in tmi.tolist()]
+    nd = len(tmi)
+    ctx.prove(sorted(set(tid)) == list(range(nd)) and sorted(tmi) == list(range(nd)), "treatment ids are dense 0..n-1 (300 names)",
+              key="ids not dense for many names")
+    by_id = {i: (nm, ds) for nm, ds, i in zip(tmn, tmd, tmi)}
+    ok = True
+    for r, (nm, ds) in enumerate(zip(base, doses)):
+        ok = ctx.And(ok, by_id[tid[r]][0] == nm, ctx.eq(by_id[tid[r]][1], ds))
+    ctx.prove(ok, "every treatment id decodes to the row's (name, dose) (300 names)", key="ids do not decode for many names")
+    return nd
+
+
 def h_badmap(ctx, cfg):
     """a supplied mapping that does not cover the data, or is not dense, must be rejected"""
     np = ctx.np
@@ -332,4 +365,4 @@ def h_badmap(ctx, cfg):
 
 
 def run(ctx, cfg):
-    return {"treat": h_treat, "one_d": h_one_d, "screen": h_screen, "badmap": h_badmap}[cfg["h"]](ctx, cfg)
+    return {"treat": h_treat, "one_d": h_one_d, "screen": h_screen, "badmap": h_badmap, "many": h_many}[cfg["h"]](ctx, cfg)
